@@ -31,8 +31,31 @@ impl HeapSrc for NoHeap {
     }
 }
 
-pub fn tuple_name(program: &Program, id: usize) -> String {
-    match program.get_tuples().get(id) {
+/// Where tuple names and constants come from: the merged `Program` of an environment, or a
+/// (tree-shaken, re-read, ...) `Bytecode`.
+pub trait Tables {
+    fn tuple(&self, id: usize) -> Option<&quiver_core::types::TupleTypeInfo>;
+    fn constant(&self, id: usize) -> Option<&Constant>;
+}
+impl Tables for Program {
+    fn tuple(&self, id: usize) -> Option<&quiver_core::types::TupleTypeInfo> {
+        self.get_tuples().get(id)
+    }
+    fn constant(&self, id: usize) -> Option<&Constant> {
+        self.get_constants().get(id)
+    }
+}
+impl Tables for quiver_core::bytecode::Bytecode {
+    fn tuple(&self, id: usize) -> Option<&quiver_core::types::TupleTypeInfo> {
+        self.tuples.get(id)
+    }
+    fn constant(&self, id: usize) -> Option<&Constant> {
+        self.constants.get(id)
+    }
+}
+
+pub fn tuple_name<T: Tables + ?Sized>(program: &T, id: usize) -> String {
+    match program.tuple(id) {
         Some(info) => {
             let mut s = info.name.clone().unwrap_or_default();
             let labels: Vec<String> = info
@@ -51,7 +74,7 @@ pub fn tuple_name(program: &Program, id: usize) -> String {
     }
 }
 
-pub fn pv<H: HeapSrc + ?Sized>(program: &Program, heap: &H, v: &Value) -> J {
+pub fn pv<T: Tables + ?Sized, H: HeapSrc + ?Sized>(program: &T, heap: &H, v: &Value) -> J {
     match v {
         Value::Integer(n) => match n.to_i32() {
             Some(i) => json!({"k": "int", "n": i}),
@@ -61,7 +84,7 @@ pub fn pv<H: HeapSrc + ?Sized>(program: &Program, heap: &H, v: &Value) -> J {
             Some(b) => json!({"k": "bin", "b": b}),
             None => json!({"k": "bin", "b": [], "dangling": i}),
         },
-        Value::Binary(Binary::Constant(i)) => match program.get_constants().get(*i) {
+        Value::Binary(Binary::Constant(i)) => match program.constant(*i) {
             Some(Constant::Binary(b)) => json!({"k": "bin", "b": b}),
             _ => json!({"k": "bin", "b": [], "dangling": i}),
         },
